@@ -27,6 +27,7 @@ type Program struct {
 	Ifaces        map[string]*Contract // interface method contracts: "net.Conn.Read"
 	LemmaFiles    map[string]string    // overlay target path -> source path
 	ContractFiles []string
+	Ghosts        []ParamDecl // ghost variables declared in spec files
 }
 
 const modPath = "github.com/aldas/go-modbus-client"
